@@ -37,6 +37,13 @@ def _isnum(o):
     return isinstance(o, (int, float, np.floating, np.integer)) or (isinstance(o, np.ndarray) and o.ndim == 0)
 
 
+def _is_nan(o):
+    try:
+        return not isinstance(o, U) and np.ndim(o) == 0 and float(o) != float(o)
+    except (TypeError, ValueError):
+        return False
+
+
 class U:
     """value = f(u), u ~ Uniform(lo, hi) (initially (0,1)); f monotone."""
 
@@ -198,6 +205,9 @@ class U:
             return {"<": operator.lt, "<=": operator.le}[op](self.value(), thr)
         thr = float(thr)
         r = self.root
+        if thr != thr:  # every ordered comparison with nan is False
+            r.ctx.note("cmp", r.id, op, thr, None, False)
+            return False
         if r.u is not None:
             v = self.f(r.u)
             out = v < thr if op == "<" else v <= thr
@@ -226,9 +236,13 @@ class U:
         return self._less(o, "<=")
 
     def __gt__(self, o):
+        if _is_nan(o):
+            return self._less(o, "<=")
         return not self._less(o, "<=")
 
     def __ge__(self, o):
+        if _is_nan(o):
+            return self._less(o, "<")
         return not self._less(o, "<")
 
     def __bool__(self):
